@@ -70,9 +70,11 @@ def activeNode (a : Active) (post : List Nat) (minL maxL : Nat) (reverse : Bool)
 
 /-! ## sealing -/
 
-/-- `sortSeqIDs`: slot 0 keeps `(mids[0], rids[0])`, then the IDs of the documents in all-documents order -/
+/-- `sortSeqIDs`: `make([]seq.ID, len(mids))`, slot 0 keeps `(mids[0], rids[0])`, then the IDs of the documents in
+all-documents order (slots of LIDs that are not in the all-documents list stay zero) -/
 def sealedIDs (a : Active) : List ID :=
-  (a.mids.getD 0 0, a.rids.getD 0 0) :: a.allDocs.map (fun l => (a.mids.getD l 0, a.rids.getD l 0))
+  ((a.mids.getD 0 0, a.rids.getD 0 0) :: a.allDocs.map (fun l => (a.mids.getD l 0, a.rids.getD l 0))) ++
+    List.replicate (a.mids.length - (a.allDocs.length + 1)) (0, 0)
 
 structure Sealed where
   per : Nat                      -- consts.IDsPerBlock (reader)
